@@ -164,7 +164,23 @@ def read_sources(repo):
         b = function_body(tscs, r"void %s\(StructureCurrentState& s\)" % fn)
         if b != "s.%s();" % fn:
             raise TranslationError("mtest::%s(StructureCurrentState&) is not a plain forward: '%s'" % (fn, b))
-    return {"CS": cs, "SCS": scs, "Study": st, "fns": fns}
+    return {"CS": cs, "SCS": scs, "Study": st, "fns": fns, "iterate_writes": iterate_writes(repo)}
+
+
+def iterate_writes(repo):
+    """fields of the study state that GenericSolver.cxx's iterate / iterate2 (one attempt) write directly:
+    `++scs.f`, `++(scs.f)`, `scs.f = ...`, `scs.f op= ...`, and non-const aliases `auto& x = scs.f;`"""
+    txt = strip_comments(open(os.path.join(repo, "mtest", "src", "GenericSolver.cxx")).read())
+    out = []
+    for fn in ("iterate2", "iterate"):
+        body = function_body(txt, r"static std::pair<bool, real> %s\(StudyCurrentState& scs,[^)]*\)" % fn)
+        found = set()
+        found |= set(re.findall(r"(?:\+\+|--)\s*\(?\s*scs\.(\w+)", body))
+        found |= set(re.findall(r"scs\.(\w+)\s*\)?\s*(?:\+\+|--)", body))
+        found |= set(re.findall(r"scs\.(\w+)\s*(?:=(?!=)|\+=|-=|\*=|/=)", body))
+        found |= set(re.findall(r"(?<!const )auto&\s+\w+\s*=\s*scs\.(\w+)\s*;", body))
+        out += sorted(found)
+    return sorted(set(out))
 
 
 # ------------------------------------------------------------------ classification of the fields
@@ -292,6 +308,11 @@ def lean_module(d):
     helpers("CS", cs, {})
     helpers("SCS", scs, {"istates": "CS", "model_states": "CS"})
     helpers("Study", st, {"s": "SCS"})
+    w("/-- the fields of the study state no attempt may write (class `pers`) -/")
+    w("def studyPersNames : List String := [%s]" % ", ".join('"%s"' % n for _, n in st if classify("Study", n) == "pers"))
+    w("/-- the fields of the study state that `iterate` / `iterate2` of GenericSolver.cxx (one attempt) write directly -/")
+    w("def iterateWrites : List String := [%s]" % ", ".join('"%s"' % n for n in d.get("iterate_writes", [])))
+    w("")
     w("def CS.blank : CS Nat := { %s }" % ", ".join("%s := 0" % n for _, n in cs))
     w("def SCS.blank (ni nm : Nat) : SCS Nat := { %s }" % ", ".join(
         ("%s := List.replicate %s CS.blank" % (n, "ni" if n == "istates" else "nm")) if classify("SCS", n) == "sub" else "%s := 0" % n
